@@ -14,6 +14,10 @@ EXTENDS PolicyStore, Json, IOUtils, TLC
 
 Trace == ndJsonDeserialize("trace.ndjson")
 
+\* every unexplained event is recorded; only the first 100 with details (the state would otherwise grow
+\* quadratically when most of a trace is unexplained)
+Note(b, x) == IF Len(b) < 100 THEN Append(b, x) ELSE Append(b, [event |-> x.event])
+
 VARIABLES l,      \* history being validated
           k,      \* next step of that history
           bad
@@ -61,7 +65,7 @@ HistoryDone == k > Len(Ev.steps) /\ Reset(bad)
 StepUnexplained ==
   /\ k <= Len(Ev.steps)
   /\ ~ENABLED StepMatches
-  /\ Reset(Append(bad, [event |-> l, step |-> k]))
+  /\ Reset(Note(bad, [event |-> l, step |-> k]))
 
 TraceInit == /\ sets = [h \in Handles |-> None] /\ copy = None /\ hist = <<>>
              /\ l = 1 /\ k = 1 /\ bad = <<>>
